@@ -10,8 +10,16 @@ model (driver command `clone.run`), then both heaps are compared up to renaming 
 (`canon`).  After that, edit histories (names, `dtype=`, `type=`, `type.denotation=`, `shape=`,
 `shape[i]=`, dimension denotations, `const_value=`, doc strings, `metadata_props[...]=`, `meta[...]=`,
 `meta.invalidate`, `replace_input_with`, node names / op types, attribute sets, graph names, opset
-imports, node removal / insertion, graph outputs) are applied to either copy by both and the heaps
-compared again.
+imports, node removal / insertion, graph outputs; the extended alphabets: graph inputs, the initializer
+mapping incl. pop / clear / update, sort incl. graphs with subgraphs, insert_before/after, extend,
+remove(safe=True), replace_all_uses_with, slices of graph.inputs / outputs, resize_inputs/outputs,
+model.functions, convenience.replace_all_uses_with / rename_values / replace_nodes_and_values) are applied
+to either copy by both and the heaps compared again.  The model's final value map is compared with the real
+`Cloner._value_map`; the scope walker's verdict (graph / function / model) with the real outcome;
+`functionalize(Sequential / PassManager pipelines)` with the model's `functionalizeAny`.
+
+Every call of the real code of a case runs under a CPU-time guard (`cpu_guarded`): a case that does not end
+is reported as `nontermination:*` instead of hanging the check.
 
 Oracle (independent of the model, on the real objects): serialized protos of clone and original are
 equal; the identity sets (graphs, nodes, values, shapes, types, metadata containers) are disjoint;
@@ -100,33 +108,64 @@ ASSUMPTIONS = [
     "fixed to what the clone entry points pass",
     "values named None (Graph.__init__ invents names, property C15) are outside the model (answer 'unsupported'); "
     "nodes named None are modelled (clone_graph keeps them anonymous since the fix of D111)",
-    "frame theorems quantify over the edit alphabets IrVerif.Clone.Edit (31 editing calls) and IrVerif.Clone.Edit2 (those "
+    "frame theorems quantify over the edit alphabets IrVerif.Clone.Edit (31 editing calls), IrVerif.Clone.Edit2 (those "
     "plus graph.inputs.append/pop, initializers[k]=v, del initializers[k], register_initializer, sort, insert_before/after, "
-    "replace_all_uses_with, resize_inputs/outputs, model.functions[id]=f, del model.functions[id]: 44 calls) with receivers "
-    "and arguments outside the protected region; the *_ext theorems need the extended separation (users of a value, outputs "
-    "of a node, inputs and initializers of a graph do not lead into the protected region), which holds for "
-    "allow_outer_scope_values=False clones (proved) and fails by design for allow=True (outer.replace_all_uses_with(..) on "
-    "the original rewires the clone's nodes that consume the captured value); other editing calls (slices of graph.inputs/"
-    "outputs, initializers.update/pop/clear, Graph.extend/remove(safe=True), convenience.*) are covered by the oracle only",
-    "Graph.sort is modelled for graphs whose nodes hold no subgraph attribute (else the model answers 'unsupported' and the "
-    "history is judged by the oracle only); the model runs its own transcription of the stable Kahn sort (property C12 owns "
-    "the algorithm) and is compared with the real order on every generated sort; a detached former node output has "
-    "_index == -1 in Python and index none in the model (the abstraction maps -1 to none)",
+    "replace_all_uses_with, resize_inputs/outputs, model.functions[id]=f, del model.functions[id]: 44 calls) and "
+    "IrVerif.Clone.Edit3 (those plus sort on graphs with subgraphs, graph.inputs[a:b]=vs, graph.outputs[a:b]=vs, "
+    "initializers.pop/clear/update, Graph.extend, Graph.remove(safe=True), convenience.replace_all_uses_with with several "
+    "pairs, convenience.rename_values, convenience.replace_nodes_and_values for one node replaced by a freshly built one: "
+    "55 calls) with receivers and arguments outside the protected region; the *_ext / *_ext3 theorems need the extended "
+    "separation (users of a value, outputs of a node, inputs and initializers of a graph do not lead into the protected "
+    "region), which holds for allow_outer_scope_values=False clones (proved) and fails by design for allow=True "
+    "(outer.replace_all_uses_with(..) on the original rewires the clone's nodes that consume the captured value); still "
+    "oracle-only: initializers.setdefault, insert/remove/del on graph.inputs/outputs, extended slices (step != 1), "
+    "replace_nodes_and_values with several old / new nodes",
+    "Graph.sort: for graphs whose nodes hold no subgraph attribute the model runs its own transcription of the stable "
+    "Kahn sort (Edit2.sort); for graphs with subgraphs (Edit3.sortDeep) it builds the tree of the nest from the heap and "
+    "calls property C12's Sort.sortModel read-only (C12 owns the algorithm), re-linking every graph of the nest; the "
+    "graphs of the nest are named among the call's arguments (they are the cells it writes: the frame hypothesis 'arguments "
+    "outside the protected region' covers them; for a clone they are new by C13_fresh); both are compared with the real "
+    "order on every generated sort; a Graph object reachable twice in the nest is answered 'unsupported'; a detached "
+    "former node output has _index == -1 in Python and index none in the model (the abstraction maps -1 to none)",
+    "C13_wiring_image: hypothesis = the walker accepts (cloneVerdict = ok, as for C13_value_map_bijection); GraphWire is "
+    "stated in the heap after cloning through the cloner's FINAL value map; the model's final value map (driver op "
+    "clone.vmap) is compared on every successful graph / subgraph / view clone with the REAL Cloner._value_map (captured "
+    "by wrapping Cloner.__init__ during the call) up to the renaming that relates the two heaps, and an independent "
+    "oracle (check_wiring) evaluates the wiring image on the real objects with the real map; with "
+    "allow_outer_scope_values=True a reference may be passed through although a LATER binding exists (RefImg's second "
+    "disjunct: D342 for sharding specs, and a value that is captured before a sibling subgraph binds it)",
+    "C13_model_clone_succeeds / _raises_iff: hypothesis = modelVerdict (cloneVerdict of the main graph, then funcVerdict of "
+    "every function, all on the SOURCE heap), compared with the real Model.clone / functionalize outcome and with the "
+    "model's on every generated model target; 'irregular' carries no claim",
+    "C13_functionalize_any: a stage of a pipeline is a function from the model it is handed to a history of the 44 calls "
+    "of Edit2, optionally followed by building a new ir.Model around the SAME graph / functions / device configurations "
+    "(metadata_props copied into a new dict); PassManager(steps=k, early_stop=False) is the k-fold repetition of its "
+    "stages (a stage that reports modified=False with early_stop=True ends the loop earlier: a prefix, covered by the "
+    "quantification over all stage lists); requires()/ensures() hooks are not modelled (default: no-ops); the generated "
+    "pipelines are Sequential / PassManager of in-place stages, functional 'stamp' stages and destructive stages with the "
+    "flags their base classes declare; the oracle compares a deep snapshot and the serialized proto of the input model "
+    "(and of every other pre-existing root) before / after, and again after editing the returned model",
+    "C13_spec_unbound_D342 is about clone_node's remap / check for ONE spec at the value map of that moment; that the value "
+    "map does not bind the outputs of later nodes yet is how cloneNode runs (compared with the real outcome and heap on "
+    "the generated later-spec cases, counted as observation=D342:*)",
     "C13_clone_succeeds / C13_clone_raises_iff / C13_clone_error_exact / C13_value_map_bijection: the hypothesis is the "
     "verdict of the scope walker IrVerif.Clone.cloneVerdict on the SOURCE heap (a decidable traversal with four lists as "
     "state); it is evaluated on every generated graph / subgraph / view clone and compared with the outcome of the real "
     "clone and of the model's clone (message included); 'irregular' verdicts (dangling pointer, node output already bound, "
     "initializer names not distinct) carry no claim and their share is published; Function.clone has its own verdict "
-    "(funcVerdict: body + graph-valued attribute defaults under one value map, C13_function_clone_*); Model.clone has no "
-    "walker theorem (outcome correspondence only)",
+    "(funcVerdict: body + graph-valued attribute defaults under one value map, C13_function_clone_*), and so has Model.clone "
+    "(modelVerdict, C13_model_clone_*: every function is cloned on the heap the previous clones left, which extends the "
+    "source heap, and the walker's verdict is stable under heap extension unless it is 'irregular')",
     "C13_closed_sharding (specs stay local to the cloned node) assumes devLocalW (every sharding spec targets an input or "
     "output of its own node), evaluated on every abstracted heap (share published; false for the generated non-local "
     "specs); C13_closed_sharding_any needs no such hypothesis for allow_outer_scope_values=False: since the fixes of D340 / "
     "D341 a spec on another value follows the cloner's value map and a spec on a value outside the cloned region raises; "
     "the model raises before allocating the node cell where Python raises after creating the node object (the abandoned "
     "node is garbage in both; with allow=False it consumes no pre-existing value); a spec on a value that a LATER node of "
-    "the cloned region defines is not generated (it is not in the value map yet when its node is cloned: allow=False "
-    "raises, allow=True keeps the spec on the original's value - reported as D342)",
+    "the cloned region defines IS generated (LATER_SPEC_P, gen_spec_later_spec, shuffled graphs with non-local specs): it "
+    "is not in the value map yet when its node is cloned, so allow=False raises and allow=True keeps the spec on the "
+    "original's value - finding D342 (reported, not applied): the model is what the code is (C13_spec_unbound_D342), the "
+    "oracle counts both consequences as observation=D342:* and never as a failure",
     "the frame theorems assume the heap before cloning has no dangling pointers and every const_value is a tensor "
     "object (wellFormed), C13_failed_clone_no_residue that usage records name existing cells (usesBounded); both are "
     "checked on every abstracted real heap by the driver",
@@ -135,9 +174,9 @@ ASSUMPTIONS = [
     "D113); a graph-free Attr object is shared too and its in-place state (meta) is outside the model (oracle-only "
     "edit attrMetaSet, known finding D114)",
     "C13_faithful* relate values by observation (VInfo), references by 'same reference or equally observed value'; the "
-    "identity-level statement is C13_value_map_bijection (keys = the region's values once each, injective, onto the value "
-    "cells the clone created); that the clone's wiring is the image of the source's wiring under that map is compared "
-    "exactly, up to renaming, on every generated case (not a theorem)",
+    "identity-level statements are C13_value_map_bijection (keys = the region's values once each, injective, onto the value "
+    "cells the clone created) and C13_wiring_image (the clone's wiring is the image of the source's under that map; "
+    "C13_faithful_of_wiring derives the observational simulation and the equality of serGraph from it)",
     "node-input closedness: allow_outer_scope_values=False -> every input is a value of the clone (C13_closed); "
     "True -> every input is a value of the clone or a pre-existing value not defined at the top level of the graph "
     "being cloned, for the root and for every nested clone_graph call (C13_closed_outer / cloneGraph_cov); a value "
@@ -882,7 +921,8 @@ class _Hang(BaseException):
     """the real code used up its CPU budget (BaseException: no `except Exception` of the code under test swallows it)"""
 
 
-CPU_BUDGET_CASE = float(__import__("os").environ.get("C13_CPU_BUDGET_S", "60") or 60)
+CPU_BUDGET_CASE = float(__import__("os").environ.get("C13_CPU_BUDGET_S", "20") or 20)
+_GIVE_UP = {"on": False}  # a non-termination was reported by this worker process: the rest of its share is skipped
 
 
 def cpu_guarded(fn, seconds=CPU_BUDGET_CASE):
@@ -2429,9 +2469,14 @@ def _worker(args):
         try:
             rng = random.Random(s)
             spec = gen_spec(rng, size)
+            if _GIVE_UP["on"]:
+                # every further case may burn the CPU budget again; the non-termination is reported with its input
+                part.count("skipped_after_nontermination")
+                continue
             try:
                 results.append(cpu_guarded(lambda: real_case(spec, s + 1, n_hist, n_edits, part)))  # noqa: B023
             except _Hang:
+                _GIVE_UP["on"] = True
                 part.fail(f"nontermination:real-case:{spec['target']['kind']}",
                           f"the real code did not finish a clone / edit case within {CPU_BUDGET_CASE:.0f}s of CPU time",
                           {"spec": spec})  # fmt: skip
